@@ -16,13 +16,34 @@ def gens(v):
     return [o for o in v.d.instances.values() if o.cls == "Generator" and "." not in o.path]
 
 
+def roles(v):
+    """data generator / address generator / DMA engine / address mask of one BIST core, found by what they feed (not by their names)."""
+    gs = gens(v)
+    dma = [o for o in v.d.instances.values() if o.cls in ("LiteDRAMDMAWriter", "LiteDRAMDMAReader") and "." not in o.path]
+    R = {"data": None, "addr": None, "dma": dma[0].path if len(dma) == 1 else None, "mask": None}
+    if R["dma"] is None:
+        return R
+    lf = sink_addr_leaf(v, R["dma"])
+    ed = expected_data(v)
+    for o in gs:
+        ok_ = str(o) + ".o"
+        if lf is not None and any(key(t) == ok_ for t in subterms(lf.value)):
+            R["addr"] = o
+            for t in subterms(lf.value):
+                if isinstance(t, Op) and t.op == "&" and len(t.args) == 2 and any(key(a) == ok_ for a in t.args):
+                    R["mask"] = deref(v, [a for a in t.args if key(a) != ok_][0])
+        if any(key(t) == ok_ for e in ed for t in subterms(e)):
+            R["data"] = o
+    return R
+
+
 def term_of(v, tk):
     ds = v.drivers(tk)
     return ds[0].value if len(ds) == 1 and not ds[0].guards else None
 
 
-def sink_addr_leaf(v):
-    ls = [l for l in v.leaves if l.kind == "assign" and l.inst == "" and key(l.target).startswith("dma.sink.address")]
+def sink_addr_leaf(v, dma="dma"):
+    ls = [l for l in v.leaves if l.kind == "assign" and l.inst == "" and key(l.target).startswith(dma + ".sink.address")]
     return ls[0] if len(ls) == 1 else None
 
 
@@ -84,30 +105,42 @@ def run(ctx):
 
         def sig(o):
             return (tuple(key(a) for a in o.args), tuple(sorted((k, key(v_)) for k, v_ in o.kwargs.items())))
-        for nm in ("data_gen", "addr_gen"):
-            a = [o for o in gg if str(o) == nm]
-            b = [o for o in cg if str(o) == nm]
-            if not ob1.need(len(a) == 1 and len(b) == 1, "%s: %s not found on both sides" % (tag, nm)):
-                continue
-            ob1.instance("%s %s constructor" % (tag, nm), {"generator": sig(a[0]), "checker": sig(b[0])})
+        RG, RC = roles(g), roles(c)
+        if not ob1.need(all(RG[k] is not None and RC[k] is not None for k in ("data", "addr", "dma")), "%s: data / address generator or DMA engine not identified by role "
+                        "(generator side %s, checker side %s)" % (tag, {k: str(x) for k, x in RG.items()}, {k: str(x) for k, x in RC.items()})):
+            continue
+        DG, DC = RG["dma"], RC["dma"]
+        for nm in ("data", "addr"):
+            a, b = [RG[nm]], [RC[nm]]
+            ob1.instance("%s %s generator constructor" % (tag, nm), {"generator": sig(a[0]), "checker": sig(b[0])})
             if sig(a[0]) != sig(b[0]):
-                ob1.refute("gen-args:%s" % nm, "%s is built with %s in the generator and %s in the checker: the two sequences differ" % (nm, sig(a[0]), sig(b[0])), b[0].loc)
-            en_g, en_c = term_of(g, nm + ".random_enable"), term_of(c, nm + ".random_enable")
+                ob1.refute("gen-args:%s_gen" % nm, "the %s generator is built with %s in the generator and %s in the checker: the two sequences differ" % (nm, sig(a[0]), sig(b[0])), b[0].loc)
+            en_g, en_c = term_of(g, str(a[0]) + ".random_enable"), term_of(c, str(b[0]) + ".random_enable")
             if en_g is None or en_c is None or key(en_g) != key(en_c):
-                ob1.refute("gen-mode:%s" % nm, "%s.random_enable is %s / %s" % (nm, en_g, en_c), None)
-        for what, fn in (("address mask", lambda v: term_of(v, "addr_mask")),
-                         ("address term", lambda v: sink_addr_leaf(v).value if sink_addr_leaf(v) else None),
-                         ("address target", lambda v: sink_addr_leaf(v).target if sink_addr_leaf(v) else None)):
-            a, b = fn(g), fn(c)
-            ob1.instance("%s %s" % (tag, what), {"generator": key(a) if a is not None else None, "checker": key(b) if b is not None else None})
+                ob1.refute("gen-mode:%s_gen" % nm, "%s generator random_enable is %s / %s" % (nm, en_g, en_c), None)
+
+        def canon(v_, R_, t_):
+            """term with the side's own instance names replaced by role names, so the two sides can be compared"""
+            if t_ is None:
+                return None
+            k_ = key(t_)
+            for role_, inst_ in (("<data_gen>", str(R_["data"])), ("<addr_gen>", str(R_["addr"])), ("<dma>", R_["dma"])):
+                k_ = k_.replace(inst_ + ".", role_ + ".")
+            return k_
+        for what, fn in (("address mask", lambda v_, R_: R_["mask"]),
+                         ("address term", lambda v_, R_: sink_addr_leaf(v_, R_["dma"]).value if sink_addr_leaf(v_, R_["dma"]) else None),
+                         ("address target", lambda v_, R_: sink_addr_leaf(v_, R_["dma"]).target if sink_addr_leaf(v_, R_["dma"]) else None)):
+            a, b = fn(g, RG), fn(c, RC)
+            ka, kb = canon(g, RG, a), canon(c, RC, b)
+            ob1.instance("%s %s" % (tag, what), {"generator": ka, "checker": kb})
             if a is None or b is None:
                 ob1.unknown("%s: %s not found" % (tag, what))
-            elif key(a) != key(b):
+            elif ka != kb:
                 ob1.refute("sibling:%s:%s" % (what, tag), "%s differs: generator %s, checker %s - the checker reads addresses the generator did not "
-                           "write (or compares different words)" % (what, key(a), key(b)), None)
+                           "write (or compares different words)" % (what, ka, kb), None)
         ea, eb = expected_data(g), expected_data(c)
         ob1.instance("%s expected data" % tag, {"generator": [key(x) for x in ea], "checker": [key(x) for x in eb]})
-        if not ea or not eb or {key(x) for x in ea} != {key(x) for x in eb}:
+        if not ea or not eb or {canon(g, RG, x) for x in ea} != {canon(c, RC, x) for x in eb}:
             ob1.refute("sibling:data:%s" % tag, "written data %s and expected data %s are different terms" % ([key(x) for x in ea], [key(x) for x in eb]), None)
         # length compare
         def length_cmp(v):
@@ -126,15 +159,16 @@ def run(ctx):
         if len(la) != 1 or la != lb:
             ob1.refute("sibling:length:%s" % tag, "run length compares differ: generator %s, checker %s" % (sorted(la), sorted(lb)), None)
         # ---- C14.2 ----
-        for v, side, data_fire, addr_fire in ((g, "generator", {"dma.sink.ready"}, {"dma.sink.ready"}), (c, "checker", {"dma.source.valid"}, {"dma.sink.ready"})):
-            for nm, fire in (("data_gen", data_fire), ("addr_gen", addr_fire)):
-                ds = [l for l in v.leaves if l.kind == "assign" and key(l.target) == nm + ".ce"]
+        for v, side, data_fire, addr_fire, RR in ((g, "generator", {DG + ".sink.ready"}, {DG + ".sink.ready"}, RG), (c, "checker", {DC + ".source.valid"}, {DC + ".sink.ready"}, RC)):
+            for nm, fire, inst_ in (("data_gen", data_fire, RR["data"]), ("addr_gen", addr_fire, RR["addr"])):
+                dma = RR["dma"]
+                ds = [l for l in v.leaves if l.kind == "assign" and key(l.target) == str(inst_) + ".ce"]
                 ok = len(ds) == 1 and is1(ds[0].value)
                 gk = v.guard_keys(ds[0], False) if ds else set()
                 st_ok = False
                 if ok:
                     # the partner handshake signal must be constant 1 in that state
-                    partner = "dma.sink.valid" if "dma.sink.ready" in fire else "dma.source.ready"
+                    partner = dma + ".sink.valid" if dma + ".sink.ready" in fire else dma + ".source.ready"
                     st_ok = any(l.kind == "assign" and key(l.target) == partner and is1(l.value) and not l.guards
                                 for l in v.fsm_leaves(ds[0].fsm and v.d.fsms[ds[0].fsm], ds[0].state)) if ds[0].fsm is not None else False
                 ob2.instance("%s %s %s.ce" % (tag, side, nm), {"guards": sorted(gk), "expected": sorted(fire)})
@@ -143,15 +177,21 @@ def run(ctx):
                                "the other handshake signal held at 1 in that state)" % (side, nm, sorted(gk), [str(d) for d in ds],
                                                                                      "word" if nm == "data_gen" else "command", sorted(fire)), ds[0].loc if ds else None)
         # ---- C14.3 ----
-        incs = [l for l in c.leaves if l.kind == "nextvalue" and key(l.target) == "errors" and not is0(l.value)]
-        clr = [l for l in c.leaves if l.kind == "nextvalue" and key(l.target) == "errors" and is0(l.value)]
+        # the error counter: the register incremented under a comparison with the returned data
+        ERR = None
+        for l in c.leaves:
+            if l.kind == "nextvalue" and not is0(l.value) and \
+                    any(isinstance(a, Op) and a.op in ("!=", "==") and any(key(z) == DC + ".source.data" for z in a.args) for a, p in c.guard_lits(l, False)):
+                ERR = key(l.target)
+        incs = [l for l in c.leaves if l.kind == "nextvalue" and key(l.target) == ERR and not is0(l.value)]
+        clr = [l for l in c.leaves if l.kind == "nextvalue" and key(l.target) == ERR and is0(l.value)]
         if ob3.need(len(incs) == 1 and len(clr) == 1, "%s: error counter update not found" % tag):
             gk = c.guard_lits(incs[0], False)
             cmpk = [a for a, p in gk if p and isinstance(a, Op) and a.op == "!="]
             rest = {lkey(x) for x in gk if not (x[1] and isinstance(x[0], Op) and x[0].op == "!=")}
             ob3.instance("%s error increment" % tag, {"guards": sorted(litset(gk))})
-            okc = len(cmpk) == 1 and {key(z) for z in cmpk[0].args} == {"dma.source.data", key(eb[0])} if eb else False
-            if rest != {"dma.source.valid"} or not okc or not lin_eq(incs[0].value, Op("+", (incs[0].target, Const(1)))):
+            okc = len(cmpk) == 1 and {key(z) for z in cmpk[0].args} == {DC + ".source.data", key(eb[0])} if eb else False
+            if rest != {DC + ".source.valid"} or not okc or not lin_eq(incs[0].value, Op("+", (incs[0].target, Const(1)))):
                 ob3.refute("errors:%s" % tag, "errors is incremented under %s: expected dma.source.valid & (dma.source.data != expected word), +1" %
                            sorted(litset(gk)), incs[0].loc)
             if "start" not in c.guard_keys(clr[0], False):
@@ -161,9 +201,13 @@ def run(ctx):
                 ob3.refute("done-fsm:%s" % tag, "done is raised by the command FSM, not by the FSM that compares the data", dn[0].loc)
         # ---- C14.4 ----
         for v, side in ((g, "generator"), (c, "checker")):
-            units = {"base": "B", "end": "B", "length": "B", "addr_gen.o": "W", "cmd_counter": "W", "data_counter": "W"}
+            RR = RG if v is g else RC
+            units = {"base": "B", "end": "B", "length": "B", str(RR["addr"]) + ".o": "W"}
+            for l_ in v.leaves:       # every up-counter of the core counts words
+                if l_.kind == "nextvalue" and lin_eq(l_.value, Op("+", (l_.target, Const(1)))):
+                    units[key(l_.target)] = "W"
             ashift_key = None
-            lf = sink_addr_leaf(v)
+            lf = sink_addr_leaf(v, RR["dma"])
             if lf is None:
                 ob4.unknown("%s %s: address assignment not found" % (tag, side))
                 continue
@@ -173,10 +217,9 @@ def run(ctx):
             if ashift_key is None:
                 ob4.unknown("%s %s: base[ashift:] not found in the address term" % (tag, side))
                 continue
-            mask = term_of(v, "addr_mask")
+            mask = RR["mask"]
             try:
                 mu = unit(mask, ashift_key, units) if mask is not None else None
-                units["addr_mask"] = mu
                 au = unit(lf.value, ashift_key, units)
                 ob4.instance("%s %s address units" % (tag, side), {"mask": key(mask) if mask is not None else None, "mask_unit": mu, "address_unit": au})
             except ValueError as e:
@@ -197,10 +240,43 @@ def run(ctx):
                     gk |= g.guard_keys(l, False)
                 buffered = dmas[0].kwargs.get("fifo_buffered", dmas[0].args[2] if len(dmas[0].args) > 2 else Const(False))
                 ob5.instance("generator done entry", {"guards": sorted(gk), "dma fifo_buffered": key(buffered)})
-                if "~dma.fifo.source.valid" not in gk:
+                if "~%s.fifo.source.valid" % DG not in gk:
                     ob5.refute("done-before-drain", "the generator reaches its done state under %s without waiting for the DMA FIFO to drain" % sorted(gk), dn[0].loc)
                 elif not (isinstance(buffered, Const) and not buffered.v):
                     ob5.refute("drain-test-buffered-fifo", "done waits for ~dma.fifo.source.valid but the DMA FIFO is built with fifo_buffered=%s: a "
                                "buffered FIFO shows source.valid low for one cycle after a push into an empty FIFO, so done can rise while the last "
                                "word is still inside" % key(buffered), dmas[0].loc)
+    # ---- C14.6: the DMA engines the cores are built on ----
+    ob6 = ctx.ob("C14.6", "a word the BIST core sees acknowledged is a word its DMA engine really issued: the DMA writer accepts (address, data) atomically and the "
+                          "DMA reader returns exactly one word per accepted address (shared with C12.1-C12.4)", 10)
+    share(ctx, ob6, "C12", ("C12.1", "C12.2", "C12.3", "C12.4"))
+    # ---- C14.7: every run restarts the sequences ----
+    ob7 = ctx.ob("C14.7", "restart: the cores are wrapped in ResetInserter and every sequence register (LFSR state, counters) is either resettable or "
+                          "re-initialised with a constant under `start`: a reset_less register keeps its value across runs, so generator and checker "
+                          "sequences drift apart as soon as the two have processed a different number of words", 6)
+    import ast as _ast
+    bm = ctx.repo.module(BIST)
+    for cname in ("_LiteDRAMBISTGenerator", "_LiteDRAMBISTChecker"):
+        cn = bm.classes.get(cname)
+        decos = [_ast.unparse(d) for d in cn.decorator_list] if cn is not None else []
+        ob7.instance("%s decorators" % cname, decos)
+        if not any(d.startswith("ResetInserter") for d in decos):
+            ob7.refute("no-reset-inserter:%s" % cname, "%s is not wrapped in ResetInserter: the reset issued before a run does not reach its sequence generators" % cname, None)
+    g, c = views(ctx, NATIVE)
+    for v, side in ((g, "generator"), (c, "checker")):
+        regs = {}
+        for l in v.leaves:
+            if (l.domain.startswith("sync") or l.kind == "nextvalue") and isinstance(l.target, Obj) and l.target.cls == "Signal":
+                regs.setdefault(key(l.target), (l.target, []))[1].append(l)
+            elif (l.domain.startswith("sync") or l.kind == "nextvalue") and isinstance(l.target, Op) and l.target.op in ("slice", "index") and isinstance(l.target.args[0], Obj):
+                regs.setdefault(key(l.target.args[0]), (l.target.args[0], []))[1].append(l)
+        own = {k: x for k, x in regs.items() if not k.startswith(roles(v)["dma"] + ".")}
+        for k, (o, ls) in sorted(own.items()):
+            rl = o.kwargs.get("reset_less")
+            is_rl = isinstance(rl, Const) and bool(rl.v)
+            reinit = any(isinstance(l.value, Const) and "start" in v.guard_keys(l) for l in ls)
+            ob7.instance("%s register %s" % (side, k), {"reset_less": is_rl, "re-initialised under start": reinit})
+            if is_rl and not reinit:
+                ob7.refute("reset-less:%s:%s" % (side, k), "%s: register %s is reset_less and never re-initialised under `start`: the reset pulse before a run does not "
+                           "bring it back to the start of the sequence" % (side, k), o.loc)
     ctx.assume("over a memory that stores faithfully; LFSR/counter primitives themselves (n_state, taps) are compared, not analysed")
